@@ -42,6 +42,15 @@ def calls_in(node, suffix):
 
 def _top_seq(body):
     blk = hir.strip(body["body"])
+    if blk.get("k") == "If" and blk.get("else") is not None:
+        # `if <nothing to do> { self } else { <the work> }`: the work is the branch that calls something
+        def calls(x_):
+            return sum(1 for y_ in hir.nodes(x_) if y_.get("k") in ("Call", "MethodCall") and not (y_.get("k") == "MethodCall" and y_["m"] in ("is_empty", "clone")))
+        th_, el_ = hir.strip(blk["then"]), hir.strip(blk["else"])
+        if calls(th_) == 0 and el_.get("k") == "BlockExpr":
+            blk = el_
+        elif calls(el_) == 0 and th_.get("k") == "BlockExpr":
+            blk = th_
     if blk.get("k") != "BlockExpr":
         return None
     blk = blk["b"]
@@ -75,6 +84,9 @@ def rule_rebuild(prog):
             out.missing("AnalyzedSource::" + fname)
             continue
         b = bs[0]
+        # (private helpers of the type that only split the work - `self.reparse(changes).reanalyze()` - are read in place)
+        b = dict(b, body=hir.simplify(hir.inline_calls(prog, b["body"], c, depth=2, max_nodes=120,
+                                                       only=lambda hb: hb["d"].startswith("AnalyzedSource::") and hb["d"] not in ("AnalyzedSource::new", "AnalyzedSource::update"))))
         item = "AnalyzedSource::" + fname
         ts = _top_seq(b)
         if ts is None:
@@ -85,6 +97,7 @@ def rule_rebuild(prog):
         bi = ai = None
         last_syntax = -1
         build_call = analyze_call = None
+        syntax_calls = []
         for i, s in enumerate(seq):
             bc = _deep_calls(prog, s, "table::build::build")
             ac = _deep_calls(prog, s, "table::semantic::analyze")
@@ -93,15 +106,29 @@ def rule_rebuild(prog):
             if ac and ai is None:
                 ai, analyze_call = i, ac[0]
             for suf in ("lexer::update", "lexer::lex", "parser::update", "parser::parse"):
-                if _deep_calls(prog, s, suf):
+                sc_ = _deep_calls(prog, s, suf)
+                if sc_:
                     last_syntax = max(last_syntax, i)
+                    syntax_calls += [(i, x_) for x_ in sc_]
         out.add(item, "symbol table is rebuilt (table::build called)", bi is not None, loc,
                 "the returned source must carry a table built from its final AST")
         out.add(item, "semantic analysis is re-run (table::analyze called)", ai is not None, loc,
                 "semantic diagnostics must be recomputed for the final AST")
         if bi is None or ai is None:
             continue
-        out.add(item, "build/analyze run after the last lexer/parser step", last_syntax < bi and last_syntax < ai and last_syntax >= 0,
+        after_syntax = last_syntax < bi and last_syntax < ai and last_syntax >= 0
+        if not after_syntax and last_syntax == bi == ai:
+            # parser, build and analyze sit in one helper (`AnalyzedProgram::from_tokens(&tokens)`): their order is the order in there
+            gh = _containing_fn(prog, b, build_call)
+            if gh is not None and gh is not b and gh is _containing_fn(prog, b, analyze_call):
+                hseq, _ = _top_seq(gh) or ([], None)
+                hb_i = next((j for j, st in enumerate(hseq) if any(x is build_call for x in hir.nodes(st))), None)
+                ha_i = next((j for j, st in enumerate(hseq) if any(x is analyze_call for x in hir.nodes(st))), None)
+                syn_in = [j for j, st in enumerate(hseq) for (i_, x_) in syntax_calls if i_ == bi and any(y is x_ for y in hir.nodes(st))]
+                syn_out = [x_ for (i_, x_) in syntax_calls if i_ == bi and not any(y is x_ for y in hir.nodes(gh["body"]))]
+                if hb_i is not None and ha_i is not None and not syn_out:
+                    after_syntax = all(j < hb_i and j < ha_i for j in syn_in)
+        out.add(item, "build/analyze run after the last lexer/parser step", after_syntax,
                 c.loc(build_call["sp"]), "the table must be built from the AST produced by the last change")
         g_b = _containing_fn(prog, b, build_call)
         g_a = _containing_fn(prog, b, analyze_call)
@@ -280,7 +307,9 @@ def rule_strip_set(prog):
         out.add("affected::remove_messages", "message class %s: stripped on reuse iff produced by table::*" % v,
                 (v in expected) == (v in stripped), c.loc(m["sp"]),
                 "produced under table::* = %s, stripped from reused nodes = %s" % (v in expected, v in stripped))
-    # reuse branch: traverse_mut(remove_messages) on the clone that is returned
+    # reuse branch: traverse_mut(remove_messages) on the clone that is returned (a helper that holds the branch is read in place)
+    aff_file_ = c.file_of(aff["sp"])
+    aff = dict(aff, body=hir.simplify(hir.inline_calls(prog, aff["body"], c, depth=3, only=lambda hb: c.file_of(hb["sp"]) == aff_file_)))
     tm = [n for n in hir.nodes(aff["body"], "MethodCall") if n["m"] == "traverse_mut"]
     ok = False
     loc = c.loc(aff["sp"])
@@ -750,7 +779,14 @@ def rule_recovery_noconsume(prog):
         out.missing("parser::utility::expect")
         return out
     n = 0
-    for m in hir.nodes(ex["body"], "Match"):
+    # (the arms may sit in a helper of expect(): `recover(outcome, &msg)`)
+    ex_bodies = [ex]
+    for call_ in hir.nodes_deep(prog, ex["body"], 1, crate=c):
+        if call_.get("k") in ("Call", "MethodCall"):
+            hb_ = hir.local_callee_body(prog, call_)
+            if hb_ is not None and hb_["_crate"] is c and c.file_of(hb_["sp"]) == c.file_of(ex["sp"]) and hb_ not in ex_bodies and hb_["k"] == "fn":
+                ex_bodies.append(hb_)
+    for ex_b, m in [(eb_, m_) for eb_ in ex_bodies for m_ in hir.nodes(eb_["body"], "Match")]:
         for arm in m["arms"]:
             pv = hir.pat_variant(arm["pat"])
             if pv and last(pv) == "Err":
@@ -775,7 +811,7 @@ def rule_recovery_noconsume(prog):
                     direct = True
                     if len(errb) != 1:
                         continue
-                good = _resumes_at_error_input(prog, ex, arm["body"], errb[0]["id"], direct=direct)
+                good = _resumes_at_error_input(prog, ex_b, arm["body"], errb[0]["id"], direct=direct)
                 takes = [x for x in hir.nodes_deep(prog, arm["body"], 2) if x.get("k") in ("Call", "MethodCall") and
                          ((hir.callee(x) or "").endswith("::advance") or (hir.callee(x) or "").endswith("complete::take"))]
                 n += 1
@@ -1429,6 +1465,12 @@ def rule_empty_range_guard(prog):
                                 cond = hir.strip(iff["cond"])
                                 if mentions_is_empty(cond) and not (cond.get("k") == "Unary" and cond["op"] == "!") and diverges(iff["then"]):
                                     guarded = True
+                if not guarded:
+                    # the site sits in an arm of a match on a type of the crate (a variant that is only built for a non-empty range):
+                    # the guard is where the variant is built - not followed
+                    for p in chain[:-1]:
+                        if p.get("k") == "Arm" and any(v.startswith("spl_frontend::") for v in hir.pat_variants_all(p["pat"])):
+                            guarded = None
                 out.add(b["d"], "first()/last().expect() is reached only for a non-empty range", guarded, c.loc(n["sp"]),
                         "slicing tokens with an empty range and then unwrapping first()/last() panics; the empty case must be "
                         "handled first")
@@ -1558,7 +1600,8 @@ def rule_tokchange_args(prog):
     out = Out("TOKCHANGE-ARGS")
     c = prog.front
     TC = "spl_frontend::tokens::TokenChange"
-    bodies = [b for b in c.bodies if c.file_of(b["sp"]).endswith(("parser.rs", "parser/utility.rs")) and b["k"] in ("fn", "assoc_fn")]
+    bodies = [b for b in c.bodies if (c.file_of(b["sp"]).endswith("src/parser.rs") or "/parser/" in c.file_of(b["sp"])) and
+              "/tests" not in c.file_of(b["sp"]) and b["k"] in ("fn", "assoc_fn")]
 
     def defs(body):
         d = {}
@@ -1581,7 +1624,10 @@ def rule_tokchange_args(prog):
     def is_length(e, depth=0):
         """a number of tokens (literal, `.len()` / `.count()`, min/max of such, or a local function that returns one): adding it to a
         position does not change the frame of the position"""
-        e = hir.strip_ref(e)
+        e0 = e
+        while isinstance(e0, dict) and e0.get("k") in ("Paren", "AddrOf") and not e0.get("inlined"):
+            e0 = e0["e"]
+        e = e0 if (isinstance(e0, dict) and e0.get("inlined")) else hir.strip_ref(e)
         if depth > 3:
             return False
         if e.get("k") == "Lit":
@@ -1592,8 +1638,8 @@ def rule_tokchange_args(prog):
             if e["m"] in ("min", "max", "clamp") and e["args"]:
                 return is_length(e["recv"], depth + 1) and all(is_length(a_, depth + 1) for a_ in e["args"])
             return False
-        if e.get("k") == "Call":
-            hb = hir.local_callee_body(prog, e)
+        if e.get("k") == "Call" or e.get("inlined"):
+            hb = prog.body(e["inlined"]) if e.get("inlined") else hir.local_callee_body(prog, e)
             if hb is not None and hb["_crate"] is c:
                 blk = hir.strip(hb["body"])
                 tail = blk["b"].get("expr") if blk.get("k") == "BlockExpr" else blk
@@ -1615,26 +1661,38 @@ def rule_tokchange_args(prog):
         return False
 
     def old_abs(e, body, dmap, pmap, depth=0):
-        """True / False / ('param', index)"""
+        """True: absolute old position / False: positively a position relative to the enclosing Reference / None: not decided /
+        ('param', index, fields): the value of a parameter (of the fields `a.b` of it)"""
         e = hir.strip_ref(e)
         k = e.get("k")
-        if depth > 12:
-            return False
+        if depth > 14:
+            return None
         if k == "Path" and e["res"].get("k") == "Local":
             i = e["res"]["id"]
             if i in pmap:
-                return ("param", pmap[i])
+                return ("param", pmap[i], ())
             if i in dmap:
-                return old_abs(dmap[i][1], body, dmap, pmap, depth + 1)
-            return False
+                pat_, init_ = dmap[i]
+                v_ = old_abs(init_, body, dmap, pmap, depth + 1)
+                # `let Range { start, end } = self.old_tokens;`: the binding is a field of the value
+                pt_ = hir.pat_strip(pat_)
+                if pt_.get("k") == "Struct" and isinstance(v_, tuple):
+                    for pf_ in pt_.get("fields") or []:
+                        if any(bd["id"] == i for bd in hir.pat_bindings(pf_["pat"])):
+                            return ("param", v_[1], v_[2] + (pf_["name"],))
+                return v_
+            return None
         if k == "MethodCall":
             if e["m"] == "shift" and e["args"]:
                 if has_old_ref(e["args"][0]):
                     return True
                 return False
+            if e["m"] == "to_range":
+                # the range of a node as stored: relative to the Reference the node sits in
+                return False
             if e["m"] in ("clone", "to_owned", "min", "max"):
                 return old_abs(e["recv"], body, dmap, pmap, depth + 1)
-            return False
+            return None
         if k == "Binary" and e["op"] in ("+", "-"):
             if has_old_ref(e):
                 return True
@@ -1643,25 +1701,54 @@ def rule_tokchange_args(prog):
                 return l
             if hir.lit_value(e["l"]) is not None or is_length(e["l"]):
                 return r
-            return False
-        if k == "Field" and e["name"] in ("start", "end"):
+            return None
+        if k == "Field":
             base = hir.strip_ref(e["base"])
-            if (place(base) or "").endswith(".deletion_range"):
+            if e["name"] in ("start", "end") and (place(base) or "").endswith(".deletion_range"):
                 return True
-            return old_abs(e["base"], body, dmap, pmap, depth + 1)
+            # a field of a local struct value (`old.old_tokens`, the struct built two lines above or by an inlined constructor)
+            pl_ = hir.path_local(base)
+            if pl_ and pl_["id"] in dmap:
+                init_ = hir.strip_ref(hir.strip(dmap[pl_["id"]][1]))
+                while init_.get("k") == "BlockExpr" and init_["b"].get("expr") is not None and not init_["b"].get("stmts"):
+                    init_ = hir.strip_ref(hir.strip(init_["b"]["expr"]))
+                if init_.get("k") == "Struct" and not (init_.get("adt") or "").startswith("core::ops::range::"):
+                    for f_ in init_["fields"]:
+                        if f_["name"] == e["name"]:
+                            return old_abs(f_["e"], body, dmap, pmap, depth + 1)
+                    return None
+            v_ = old_abs(e["base"], body, dmap, pmap, depth + 1)
+            if e["name"] in ("start", "end"):
+                return v_
+            if isinstance(v_, tuple):
+                return ("param", v_[1], v_[2] + (e["name"],))
+            return None
         if k == "Struct" and (e.get("adt") or "").startswith("core::ops::range::Range"):
             vals = [old_abs(f["e"], body, dmap, pmap, depth + 1) for f in e["fields"]]
             if all(v is True for v in vals):
                 return True
+            if any(v is False for v in vals):
+                return False
             ps = [v for v in vals if isinstance(v, tuple)]
             if ps and all(v is True or isinstance(v, tuple) for v in vals) and len(set(ps)) == 1:
                 return ps[0]
-            return False
-        return False
+            return None
+        return None
 
-    # call graph among the local functions (by def path)
-    by_path = {b["p"]: b for b in bodies}
+    # the bodies as they read with their small helpers in place (constructors and methods of a struct that bundles the old node with
+    # its absolute range)
+    pfiles = {c.file_of(b["sp"]) for b in bodies}
+    bodies = [dict(b, body=hir.simplify(hir.inline_calls(prog, b["body"], c, depth=3, only=lambda hb: c.file_of(hb["sp"]) in pfiles)))
+              for b in bodies]
+    inlined_paths = {x["inlined"] for b in bodies for x in hir.nodes(b["body"]) if x.get("inlined")}
     n = 0
+
+    def project(arg, fields):
+        """the expression for `<arg>.<fields>`"""
+        e_ = arg
+        for f_ in fields:
+            e_ = {"k": "Field", "name": f_, "base": e_, "t": arg.get("t"), "sp": arg.get("sp")}
+        return e_
 
     def check_arg(arg, body, label, loc, seen):
         nonlocal n
@@ -1669,22 +1756,30 @@ def rule_tokchange_args(prog):
         v = old_abs(arg, body, dmap, pmap)
         if isinstance(v, tuple):
             # obligation moves to every call site of `body`
-            idx = v[1]
+            idx, flds = v[1], v[2]
             sites = []
             for cb in bodies:
-                for call in hir.nodes(cb["body"], "Call"):
-                    d = hir.path_def(call["f"])
-                    if d and d["p"] == body["p"] and idx < len(call["args"]):
-                        sites.append((cb, call))
-            if not sites or (body["p"], idx) in seen:
+                for call in hir.nodes(cb["body"]):
+                    if call.get("k") == "Call":
+                        d = hir.path_def(call["f"])
+                        if d and d["p"] == body["p"] and idx < len(call["args"]):
+                            sites.append((cb, call, call["args"][idx]))
+                    elif call.get("k") == "MethodCall" and hir.callee(call) == body["p"]:
+                        args_ = [call["recv"]] + list(call.get("args") or [])
+                        if idx < len(args_):
+                            sites.append((cb, call, args_[idx]))
+            if not sites or (body["p"], idx, flds) in seen:
+                if not sites and body["p"] in inlined_paths:
+                    # every call of this helper is read in place: the obligation is discharged on the copy inside the caller
+                    return
                 n += 1
                 out.add(body["d"], label, None, loc, "parameter never bound at a visible call site")
                 return
-            for cb, call in sites:
-                check_arg(call["args"][idx], cb, label + " <- " + cb["d"].rsplit("::", 1)[-1], c.loc(call["sp"]), seen | {(body["p"], idx)})
+            for cb, call, a_ in sites:
+                check_arg(project(a_, flds), cb, label + " <- " + cb["d"].rsplit("::", 1)[-1], c.loc(call["sp"]), seen | {(body["p"], idx, flds)})
             return
         n += 1
-        out.add(body["d"], label, bool(v), loc,
+        out.add(body["d"], label, v, loc,
                 "this position reaches a TokenChange query about the *old* token vector without having been made "
                 "absolute with `get_old_reference()`: it is relative to the enclosing Reference and only right when "
                 "the node happens to sit in the first declaration (origin 0)")
@@ -1783,6 +1878,10 @@ def rule_reuse(prog):
     if aff is None:
         out.missing("parser::utility::affected")
         return out
+    # (the small helpers of `affected` - named conditions, methods of a struct that bundles the old node with its range - are read
+    # in place)
+    aff_file = c.file_of(aff["sp"])
+    aff_i = dict(aff, body=hir.simplify(hir.inline_calls(prog, aff["body"], c, depth=3, only=lambda hb: c.file_of(hb["sp"]) == aff_file)))
     scope = [b for b in c.bodies if b["p"] == aff["p"] or b["p"].startswith(aff["p"] + "::")]
     # ... and the functions of the same module it calls (its nested helpers may be hoisted to module level, the decision may sit in
     # a function of its own)
@@ -1802,7 +1901,9 @@ def rule_reuse(prog):
                             scope.append(hb_)
                             nxt_.append(hb_)
         frontier = nxt_
-    # ---- (aligned)
+    # ---- (aligned) .. (unnarrowed): the conditions that guard the reuse exit, read with the helpers in place
+    scope_plain = scope
+    scope = [aff_i if b["p"] == aff["p"] else b for b in scope]
     ops = set()
     n_cmp = 0
     align_cmps = []
@@ -1885,7 +1986,8 @@ def rule_reuse(prog):
                     if pl and pl["id"] in defs:
                         conds.append(defs[pl["id"]])
                 for cd in conds:
-                    for m_ in hir.nodes(cd):
+                    # (the test may be a named helper: `contains_syntax_error(&node.errors())`)
+                    for m_ in hir.nodes_deep(prog, cd, 2, crate=c):
                         pats = [a_["pat"] for a_ in m_["arms"]] if m_.get("k") == "Match" else [m_["pat"]] if m_.get("k") == "LetExpr" else []
                         if any(v.endswith("ErrorMessage::ParseErrorMessage") for pt in pats for v in hir.pat_variants_all(pt)):
                             return True
@@ -2121,6 +2223,7 @@ def rule_reuse(prog):
                 out.add("parser::utility::affected", label, None, c.loc(atoms[0]["sp"]), "the `if` that guards the reuse exit was not found for this test")
             else:
                 out.add("parser::utility::affected", label, v_, c.loc(atoms[0]["sp"]), (why + "; " if why else "") + expl, (tag,))
+    scope = scope_plain
     # ---- (window): parsers decide where a node ends by peeking at the synchronisation sets; the longest token sequence one of
     # their elements inspects behind a node is the number of tokens behind a node whose change must make the node "affected"
     tags_ = tag_parsers(prog)
@@ -2353,9 +2456,9 @@ def rule_error_owner(prog):
     unit refuses reuse for nodes that reported outward (its `this` is filtered on the node's Error variant)."""
     out = Out("ERROR-OWNER")
     c = prog.front
-    INFO = "spl_frontend::parser::utility::info"
-    EXPECT = "spl_frontend::parser::utility::expect"
-    AFFECTED = "spl_frontend::parser::utility::affected"
+    INFO = (prog.body("spl_frontend::parser::utility::info") or {}).get("p", "spl_frontend::parser::utility::info")
+    EXPECT = (prog.body("spl_frontend::parser::utility::expect") or {}).get("p", "spl_frontend::parser::utility::expect")
+    AFFECTED = (prog.body("spl_frontend::parser::utility::affected") or {}).get("p", "spl_frontend::parser::utility::affected")
     units = {}
     for b in c.bodies:
         f = c.file_of(b["sp"])
